@@ -82,13 +82,16 @@ class C13(Property):
     level_note = (
         "Proved in Lean: find(start, fq_name(pos), strict or not, single or not) = pos for every tree, every start and "
         "every position that is PathOK (find_fq, find_one_fq; PathOK follows from spec B's `addressable` plus the "
-        "library's tree invariants, find_fq_addressable), including the tokenizer on the emitted path "
-        "(tokenize_fqName) and int(str(i)) = i (pyInt_natStr); the unrestricted law is refuted for the code as it is "
-"by three witnesses that satisfy every library invariant (C13_full_fails: field named ''; "
+        "tree invariants TreeInv, find_fq_addressable), including the tokenizer on the emitted path "
+        "(tokenize_fqName) and int(str(i)) = i (pyInt_natStr); fqName_root ('/' for the root) holds by construction "
+        "(rfl on the model). `addressable` is sufficient, not shown necessary: the unrestricted law is refuted by three "
+        "witnesses that satisfy TreeInv, one per excluded condition (C13_full_fails: field named ''; "
         "C13_full_fails_backslash: the child of a Dict named 'y\\\\'; C13_full_fails_key: an element stored under a key "
-        "different from its name, so `key = name` is an explicit hypothesis [KeyIsName] of `addressable`, not part of "
-        "TreeInv); C13_backslash_dot_ok: the field 'a\\\\.b' fixed by b49b3eb now satisfies the law. Tied to "
-        "the code by correspondence: fq_name()/find() of every element of random and exhaustively enumerated trees.")
+        "different from its name — [KeyIsName] is an explicit hypothesis of `addressable`, not part of TreeInv), but no "
+        "converse theorem says every non-addressable position fails; C13_backslash_dot_ok: the field 'a\\\\.b' fixed by "
+        "b49b3eb satisfies the law. Members removed from a List are outside model A (one tree): oracle only, expected to "
+        "be roots of their own (KF-C13-d). Tied to the code by correspondence: fq_name()/find() of every element of "
+        "random and exhaustively enumerated trees, also after histories of list mutations with queries in between.")
     technique = "Lean 4 model + inverse-law proof; differential correspondence; exhaustive two-level names"
     exhaustive_note = ""
     quick_n = 25000
@@ -100,6 +103,11 @@ class C13(Property):
         if history:
             c["init"] = init
             c["history"] = history
+            removed = cm.removed_subjects(init, history, tree)
+            if removed:
+                # members popped / deleted / replaced on the way are subjects too: an element without a
+                # tree above it is its own root
+                c["removed"] = removed
         return c
 
     def corpus(self):
@@ -167,6 +175,12 @@ class C13(Property):
         newz = dict(_leaf("x"), id=cm._max_id(tk) + 2, key="z")     # named like the sibling key: finds the wrong element
         hk2 = [{"at": [0], "op": "setfield", "key": "z", "nodes": [newz]}]
         out.append(self._case(cm.simulate(tk, hk2), [0, 2], tk, hk2))
+        # open KF-C13-d: members removed from a List (pop / del / item assignment of an Element)
+        rows = cm.number({"k": "l", "name": "rows", "member": {"k": "s", "name": "row"}, "kids": [_leaf("row") for _ in range(3)]})
+        newm = dict(_leaf("row"), id=cm._max_id(rows) + 1)
+        for h in ([{"at": [], "op": "pop", "i": 0}], [{"at": [], "op": "delitem", "i": 0}],
+                  [{"at": [], "op": "setitem", "i": 1, "nodes": [newm], "detached": True, "pre": []}]):
+            out.append(self._case(cm.simulate(rows, h), [0], rows, h))
         # open KF-C13-b: empty field name
         t3 = cm.number({"k": "d", "name": "root", "kids": [_leaf(""), {"k": "d", "name": "a", "kids": [_leaf("")]}]})
         out.append(self._case(t3, [0, 2]))
@@ -255,7 +269,6 @@ class C13(Property):
         fails = []
         if root.fq_name() != "/":
             fails.append({"clause": "root-is-slash", "expected": "/", "observed": root.fq_name()})
-        per_finding = {}
         for n in cm.preorder(case["tree"]):
             el = byid[n["id"]]
             try:
@@ -273,20 +286,94 @@ class C13(Property):
                     cm.reraise_timeout(e)
                     ok, obs = False, cm.exc_name(e)
                 if not ok:
-                    f = {"clause": "inverse", "element": n["id"], "start": s, "fq_name": cm.enc(p),
-                         "expected": [n["id"]], "observed": obs}
-                    fid = _finding_of(case["tree"], n["id"])
-                    # keep one failure per finding class and every unclassified one
-                    if fid is None:
-                        fails.append(f)
-                    elif fid not in per_finding:
-                        per_finding[fid] = f
-        return fails + list(per_finding.values())
+                    # every failure is reported and classified on what was observed (no de-duplication)
+                    fails.append({"clause": "inverse", "element": n["id"], "start": s, "fq_name": cm.enc(p),
+                                  "expected": [n["id"]], "observed": obs})
+        # removed members: each is the root of its own tree — fq_name() relative to it, found from inside it
+        for rec in case.get("removed", []):
+            r_el = byid[rec["id"]]
+            for n in cm.preorder(rec["node"]):
+                el = byid[n["id"]]
+                want_fq = cm.doc_fq(rec["node"], n["id"])
+                try:
+                    p = el.fq_name()
+                    fq_obs = cm.enc(p)
+                except Exception as e:  # noqa: BLE001
+                    cm.reraise_timeout(e)
+                    p, fq_obs = None, {"error": cm.exc_name(e)}
+                for s_el, s_id in ((r_el, rec["id"]), (el, n["id"])):
+                    obs = None
+                    if p is not None:
+                        try:
+                            got = s_el.find(p)
+                            obs = cm.labels(label, got)
+                        except Exception as e:  # noqa: BLE001
+                            cm.reraise_timeout(e)
+                            obs = cm.exc_name(e)
+                    if fq_obs != cm.enc(want_fq) or obs != [n["id"]]:
+                        fails.append({"clause": "removed-inverse", "element": n["id"], "removed_root": rec["id"],
+                                      "how": rec["how"], "start": s_id, "fq_name": fq_obs,
+                                      "expected_fq": cm.enc(want_fq), "expected": [n["id"]], "observed": obs})
+                    if s_el is el:
+                        break
+        return fails
 
     def classify(self, case, failure):
-        if failure.get("clause") != "inverse":
+        """a failure belongs to an open finding only if BOTH the observed fq_name() and the observed
+        find() outcome are what the finding predicts"""
+        clause = failure.get("clause")
+        if clause == "inverse":
+            fid = _finding_of(case["tree"], failure["element"])
+            if fid is None:
+                return None
+            # fq_name() prints the documented path in all three classes ...
+            fq = cm.doc_fq(case["tree"], failure["element"])
+            if failure.get("fq_name") != cm.enc(fq):
+                return None
+            # ... and find() reads it back as the grammar says: a segment ending in a backslash is glued to
+            # the next with '/', a final '' vanishes and an inner '' is the step None, steps are looked up
+            # among the KEYS of a mapping
+            kind, val = cm.ref_eval(case["tree"], fq)
+            predicted = [val] if kind == "ok" else val
+            if predicted == [failure["element"]] or failure.get("observed") != predicted:
+                return None
+            return fid
+        if clause == "removed-inverse":
+            rec = [r for r in case.get("removed", []) if r["id"] == failure["removed_root"]]
+            if not rec:
+                return None
+            rec = rec[0]
+            rel = cm.doc_segments(rec["node"], failure["element"])
+            if rec["how"] == "pop":
+                # List.pop() clears the old slot's parent but leaves the member below that slot: the chain ends in
+                # the slot, so fq_name() starts with the member's own name and find() starts at the slot
+                name = rec["node"]["name"]
+                if name is None:
+                    return "KF-C13-d" if failure["fq_name"] == {"error": "AttributeError"} and failure["observed"] is None else None
+                fq = "/" + "/".join([cm.esc_name(name)] + rel)
+                steps = cm.ref_read(fq)
+                predicted = ["not-an-element"] if not steps else "NotImplementedError"
+            elif rec["how"] == "replace":
+                # lst[i] = <Element> swaps the element of the live slot: the old member still sits below that
+                # slot, i.e. it answers with the path of the member that replaced it
+                by_segs = cm.doc_segments(case["tree"], rec["by"])
+                if by_segs is None:
+                    return None
+                fq = "/" + "/".join(by_segs + rel)
+                kind, val = cm.ref_eval(case["tree"], fq)
+                predicted = [val] if kind == "ok" else val
+            else:
+                # every other removal leaves the old slot (with its old position as name) pointing at the list
+                lst_segs = cm.doc_segments(case["tree"], rec["list"])
+                if lst_segs is None:
+                    return None
+                fq = "/" + "/".join(lst_segs + [str(rec["old"])] + rel)
+                kind, val = cm.ref_eval(case["tree"], fq)
+                predicted = [val] if kind == "ok" else val
+            if failure["fq_name"] == cm.enc(fq) and failure["observed"] == predicted:
+                return "KF-C13-d"
             return None
-        return _finding_of(case["tree"], failure["element"])
+        return None
 
     # -------------------------------------------------------------- evidence
     def nontrivial(self, case, obs):
@@ -324,6 +411,8 @@ class C13(Property):
             t.append("has-sparse-dict")
         hist = case.get("history") or []
         t.append("history=%d" % len(hist))
+        for rec in case.get("removed", []):
+            t.append("removed-member:%s" % rec["how"])
         for op in hist:
             t.append("listop:%s" % op["op"])
             if op.get("detached"):
